@@ -204,7 +204,7 @@ def check(model, rep):
     rep.absorb(dep, {'C11.grid': 'C03.euler.grid'})
     dep = Report('C12')
     c12.check_run(model, dep)
-    rep.absorb(dep, {'C12.state': 'C03.hold.state', 'C12.unit': 'C03.euler.grid.unit'})
+    rep.absorb(dep, {'C12.state': 'C03.hold.state', 'C12.unit': 'C03.euler.grid.unit', 'C12.cont': 'C03.euler.start'})
     rep.analysed.update({'run_paths': len(rm.paths), 'instant_contexts': len(ins), 'time_params': params})
     rep.require('C03.inertia', 4)
     rep.require('C03.eom', 2)
